@@ -173,7 +173,7 @@ Definition code (tubid_of : Z -> list Z) (k : option (list Z)) : Z :=
 Definition fs (o : option string) : string := match o with None => "-"%string | Some s => s end.
 Definition show (f : Z -> list Z) (o : endobs) := (code f (ever o), code f (final o), fs (fail o)).
 Definition cases : list ((Z -> list Z) * session_cfg Z) := """ + coq_list(session_term(impl, c) for c in part) + """.
-Eval vm_compute in map (fun c => let '(oc, os) := session Z (fst c) (snd c) in (show (fst c) oc, show (fst c) os)) cases.
+Eval vm_compute in map (fun c => let '(oc, os) := session Z (fst c) (snd c) in [show (fst c) oc; show (fst c) os]) cases.
 """
         try:
             (vals,) = ctx.coq_eval("C05_sessions_%d" % (shard // 400), body, requires=REQ)
@@ -208,7 +208,7 @@ def malformed(ctx, impl):
         ("hello-claim-key-uppercase-wrong", lambda d, ids: re.sub(rb"my-tub-id: [^\r\n]*\r\n", b"MY-TUB-ID: " + ids["C"].encode() + b"\r\n", d)),
         ("hello-claim-leading-spaces-wrong", lambda d, ids: re.sub(rb"my-tub-id: [^\r\n]*\r\n", b"my-tub-id:     " + ids["C"].encode() + b"\r\n", d)),
         ("hello-claim-trailing-space", lambda d, ids: re.sub(rb"(my-tub-id: [^\r\n]*)\r\n", rb"\1 \r\n", d)),
-        ("hello-claim-nul", lambda d, ids: re.sub(rb"(my-tub-id: [^\r\n]*)\r\n", rb"\1\x00\r\n", d)),
+        ("hello-claim-nul", lambda d, ids: re.sub(rb"(my-tub-id: [^\r\n]*)\r\n", lambda m: m.group(1) + b"\x00\r\n", d)),
         ("hello-claim-non-ascii", lambda d, ids: re.sub(rb"my-tub-id: [^\r\n]*\r\n", b"my-tub-id: \xff\xfe\r\n", d)),
         ("hello-claim-non-utf8-prefix", lambda d, ids: d.replace(b"my-tub-id: ", b"my-tub-id: \xc3\xa9") if b"my-tub-id: " in d else d),
         ("hello-error-block", lambda d, ids: b"error: go away\r\n" if b"my-tub-id: " in d else d),
@@ -258,7 +258,7 @@ def malformed(ctx, impl):
                     problems = list(t.bad)
                     dial = t.ids[cfg.get("dial", "B")]
                     for (tn, key, is_client, cid) in t.attached:
-                        if cid != "loopback" and cid != key:
+                        if cid != "loopback" and (cid is None or cid != key):
                             problems.append(("attached-unproven", tn, key, cid))
                         if is_client and key != dial:
                             problems.append(("client-attached-other-than-dialled", tn, key, dial))
@@ -266,11 +266,6 @@ def malformed(ctx, impl):
                         problems.append(("getReference-succeeded-without-proof", "A", dial, None))
                     if len(t.result) != 1:
                         problems.append(("getReference-fired-%d-times" % len(t.result), "A", dial, None))
-                    if (base or name.startswith("hello-two-claims-right") or "wrong" in name) and (t.final["A"] or t.final["B"]) \
-                            and not (name.startswith("decision-claims") and not base):
-                        # a dishonest base cell, or a hello whose effective claim is another Tub's id, must not leave a connection
-                        if base or side == 1 or True:
-                            problems.append(("dishonest-cell-left-a-connection", "-", repr(t.final), None))
                     for p in problems[:2]:
                         ctx.fail("oracle/malformed/%s" % p[0], "%s with malformed block %s (direction %d): Tub %s key=%s certificate/expected=%s; cell %r"
                                  % (p[0], name, side, p[1], p[2], p[3], cfg),
@@ -352,37 +347,45 @@ def correspond_histories(ctx, hist):
     from harness import c05_impl as impl
     if not hist:
         return
-    ids = {k: v[0] for k, v in impl.arrangement("hi").items()}
     certn = dict(none="None", A="(Some 1%Z)", B="(Some 2%Z)", C="(Some 3%Z)")
-    defs = "\n".join("Definition id%s : list Z := %s." % (k, zs(ids[k])) for k in "ABC") + """
-Definition tid : Z -> list Z := fun c => if (c =? 1)%Z then idA else if (c =? 2)%Z then idB else if (c =? 3)%Z then idC else [].
-Definition code (k : list Z) : Z := if list_eqb k idA then 1%Z else if list_eqb k idB then 2%Z else if list_eqb k idC then 3%Z else 0%Z.
-Definition show (t : table Z) := map (fun e => (code (fst e), match conn_cert Z (snd e) with Some c => c | None => 0%Z end, conn_loop Z (snd e))) t.
-Fixpoint trace (t : table Z) (evs : list (event Z)) : list (list (Z * Z * bool)) :=
-  match evs with [] => [] | e :: r => let t' := step Z tid idA t e in show t' :: trace t' r end.
+    defs = []
+    allids = {}
+    for a_pos in ("hi", "lo"):
+        arr = impl.arrangement(a_pos)
+        allids[a_pos] = {k: v[0] for k, v in arr.items()}
+        for k in "ABC":
+            defs.append("Definition id%s_%s : list Z := %s." % (k, a_pos, zs(arr[k][0])))
+        defs.append("Definition tid_%s : Z -> list Z := fun c => if (c =? 1)%%Z then idA_%s else if (c =? 2)%%Z then idB_%s "
+                    "else if (c =? 3)%%Z then idC_%s else []." % (a_pos, a_pos, a_pos, a_pos))
+    defs = "\n".join(defs) + """
+Definition code (tid : Z -> list Z) (k : list Z) : Z :=
+  if list_eqb k (tid 1%Z) then 1%Z else if list_eqb k (tid 2%Z) then 2%Z else if list_eqb k (tid 3%Z) then 3%Z else 0%Z.
+Definition show (tid : Z -> list Z) (t : table Z) :=
+  map (fun e => (code tid (fst e), match conn_cert Z (snd e) with Some c => c | None => 0%Z end, conn_loop Z (snd e))) t.
+Fixpoint trace (tid : Z -> list Z) (t : table Z) (evs : list (event Z)) : list (list (Z * Z * bool)) :=
+  match evs with [] => [] | e :: r => let t' := step Z tid (tid 1%Z) t e in show tid t' :: trace tid t' r end.
 """
-    def ev(o):
+    def ev(o, a_pos):
         if o[0] == "detach":
-            return "(Detached Z id%s)" % o[1]
+            return "(Detached Z id%s_%s)" % (o[1], a_pos)
         if o[0] == "loopback":
             return "(LoopbackRequested Z)"
         role, target, cert, claim, arrives, dropped = o[1:]
-        cl = {None: "None", "absent": "None"}.get(claim, None)
-        if cl is None:
-            cl = "(Some %s)" % zs(impl.claim_value(claim, ids, ids["A"]))
-        return "(Negotiated Z %s %s %s %s %s %s)" % (role, ("id" + target) if target else "[]", certn[cert], cl,
+        return "(Negotiated Z %s %s %s %s %s %s)" % (role, ("id%s_%s" % (target, a_pos)) if target else "[]", certn[cert], cstr(claim),
                                                      "true" if arrives else "false", "true" if dropped else "false")
     nbad = 0
     for shard in range(0, len(hist), 300):
         part = hist[shard:shard + 300]
-        body = defs + "Eval vm_compute in [" + ";\n ".join("trace [] [%s]" % "; ".join(ev(o) for o in h["model_ops"]) for h in part) + "].\n"
+        body = defs + "Eval vm_compute in [" + ";\n ".join(
+            "trace tid_%s [] [%s]" % (h["a_pos"], "; ".join(ev(o, h["a_pos"]) for o in h["model_ops"])) for h in part) + "].\n"
         try:
             (vals,) = ctx.coq_eval("C05_hist_%d" % (shard // 300), body, requires=REQ)
         except common.CoqEvalError as e:
             ctx.fail("correspondence-broken", "the C05 table model could not be evaluated: " + str(e)[-1500:], has_input=False)
             return
-        rev = {ids["A"]: 1, ids["B"]: 2, ids["C"]: 3}
         for h, tr in zip(part, vals):
+            ids = allids[h["a_pos"]]
+            rev = {ids["A"]: 1, ids["B"]: 2, ids["C"]: 3}
             ctx.traces += 1
             want = [sorted((rev.get(k, 0), rev.get(c, 0) if c else 0, bool(loop)) for (k, c, loop) in tab) for tab in h["tables"]]
             got = [sorted((a, b, bool(c)) for (a, b, c) in tab) for tab in tr]
